@@ -278,7 +278,7 @@ def run_property(prop, mod, tier, seed, known):
         k = known_match(known, prop, v['key'])
         (known_v if k else new_v).setdefault(v['key'], []).append((v, k))
     for key, lst in sorted(known_v.items()):
-        print('KNOWN-FINDING: property=%s %s (%s) x%d' % (prop, key, lst[0][1].get('what', ''), len(lst)))
+        print('KNOWN-FINDING: property=%s %s (%s) x%d' % (prop, key, lst[0][1].get('what', '')[:140], len(lst)))
     rc = 0
     for key, lst in sorted(new_v.items()):
         v = lst[0][0]
